@@ -3,6 +3,7 @@ import Uquic.Model.UQuic.QTP
 import Uquic.Spec.QtpMon
 import Uquic.Model.UQuic.FrameKinds
 import Uquic.Model.UQuic.CloneSpec
+import Uquic.Model.UQuic.SpecLife
 
 /-!
 Oracle for the `qtp` driver (property C11). Ops (see harness/drivers/qtp/qtp_test.go):
@@ -13,16 +14,22 @@ Oracle for the `qtp` driver (property C11). Ops (see harness/drivers/qtp/qtp_tes
   marshal <tokens>             => in=<canon> hdr=<hex> b=<hex>
   populate <tokens> <scid>     => in=<canon> n=… dm=… scid=… ov=… wire=… left=<canon> | PANIC
   spec <QUICID> <rand> <ids> <tokens|=> => in=<canon> cs=… want=… scidlen=…
-  tpids                        => ids=<ids>
+  tpids                        => ids=<ids> left=<canon: the spec's list after the inspection>
+  setsup <ids> / addsup <ids>  => sup=<ids> list=<canon>          (edit of the current spec value)
+  addparam <token>             => in=<canon> list=<canon>
+  setrand <0|1>                => rand=<0|1>
   dial                         => cs=… exts=… sexts=… qtp=<hex> scid=<hex> frames=… fp=… rec=<logged own parameters>
-                                  ov=<ClientOverride hex> after=<canon: the spec's list after the dial>
+                                  ov=<ClientOverride hex> … kx=<digest of the key_share body> rnd=<ClientHello.random> ver=<hex>
+                                  after=<canon: the spec's list after the dial>
+  dialvn <0|1>                 => the same for the connection re-created after Version Negotiation, followed by the
+                                  abandoned first attempt with every key prefixed by `1`
   shufdist <n> <N> / dialdist <QUICID> <n> <N> => c=<counts per permutation, lexicographic>
 
 Random parts (GREASE ids/values drawn by uTLS, shuffle draws, everything of a real dial) are recovered
 from the implementation's output as witnesses and validated; the model then has to reproduce the text.
 -/
 
-open Uquic.Oracle Uquic.Model.QTP Uquic.Spec.QtpMon Uquic.Model.FrameKinds Uquic.Model.CloneSpec
+open Uquic.Oracle Uquic.Model.QTP Uquic.Spec.QtpMon Uquic.Model.FrameKinds Uquic.Model.CloneSpec Uquic.Model.SpecLife
 
 /-- a parameter with the byte mask of its re-drawn GREASE-version slots -/
 structure TP where
@@ -434,23 +441,89 @@ def stepSpec (s : St) (base randS idsS toksS pins impl : String) : St × StepOut
   let inS := (field impl "in=").getD "?"
   (g, { model := model, tags := tags, fails := failIf (!okDraw) "grease_draw_valid" "-" s!"in={inS}" })
 
+/-- the spec value as the model sees it -/
+def toModel (s : St) : Spec := { ext := { ps := s.list.map (·.p) }, sup := s.sup, rand := s.rand }
+
+def listsEq (a b : List TP) : Bool := a.length == b.length && (a.zip b).all fun (x, y) => tpEq x y
+
 def stepTpids (s : St) (impl : String) : St × StepOut :=
   if !s.hasSpec then (s, { model := "skip" }) else
-  let ids := transportParameterIDs (s.list.map (·.p)) s.sup
+  -- model: `SpecLife.life … .inspect` (the spec's own list is filtered in place)
+  let (m', out) := life (toModel s) .inspect
+  let ids := match out with | .ids l => l | _ => []
+  let left := withMasks s.list m'.ext.ps
   let iids := (field impl "ids=").map parseNats
-  let wireIDs := (specSuppress (s.list.map (·.p)) s.sup).map (·.id)
-  ({ s with tpids := iids },
-   { model := s!"ids={fmtNats ids}", tags := ["tpids"],
-     fails := match iids with
+  let ileft := (field impl "left=").bind parseCanons
+  -- ghost: what the specification of suppression leaves of the list as written
+  let keep := s.list.filter fun t => specKeep s.sup t.p.id
+  let wireIDs := keep.map (·.p.id)
+  let shrunk := keep.length != s.list.length
+  ({ s with tpids := iids, list := keep, custom := s.custom || shrunk, key := if shrunk then s.key ++ "|inspected" else s.key },
+   { model := s!"ids={fmtNats ids} left={fmtCanons left}", tags := ["tpids"] ++ (if shrunk then ["tpids:filters-spec"] else []) ++ (if s.dials > 0 then ["tpids:after-dial"] else []),
+     fails := (match iids with
        | some l => failIf (!isCanonSortOf l wireIDs) "ids_reported_eq_canon_sort" "-" s!"reported={fmtNats l} spec ids after suppression={fmtNats wireIDs}"
-       | none => [("ids_reported_eq_canon_sort", "-", "no output")] })
+       | none => [("ids_reported_eq_canon_sort", "-", "no output")]) ++
+      (match ileft with
+       | some l => failIf (!listsEq l keep) "suppress_exact" "-" s!"list after TransportParameterIDs={fmtCanons l}, want {fmtCanons keep}"
+       | none => []) })
 
-def stepDial (s : St) (impl : String) : St × StepOut :=
+def stepSetSup (s : St) (add : Bool) (idsS _impl : String) : St × StepOut :=
   if !s.hasSpec then (s, { model := "skip" }) else
-  if impl == "PANIC" || impl.startsWith "E:" then
-    -- derived lists are generated so that PopulateFromUQUIC accepts them: a dial has to produce a flight
-    (s, { model := "flight", tags := ["dial"], fails := [("dial_produces_flight", "-", impl)] })
-  else
+  let ids := parseNats idsS
+  let (m', _) := life (toModel s) (if add then .addSup ids else .setSup ids)
+  let g := { s with sup := if add then s.sup ++ ids else ids, key := s.key ++ s!"|{if add then "addsup" else "setsup"} {idsS}", tpids := none }
+  (g, { model := s!"sup={fmtNats m'.sup} list={fmtCanons (withMasks s.list m'.ext.ps)}",
+        tags := ["edit", if add then "edit:addsup" else "edit:setsup"] ++ (if s.tpids.isSome then ["edit:after-inspection"] else []) ++
+                (if s.dials > 0 then ["edit:after-dial"] else []) })
+
+def stepAddParam (s : St) (tokS impl : String) : St × StepOut :=
+  if !s.hasSpec then (s, { model := "skip" }) else
+  let implIn := (field impl "in=").bind parseCanons |>.getD []
+  let (inp, okDraw) := resolve [parseToken tokS] implIn
+  match inp with
+  | [t] =>
+    let (m', _) := life (toModel s) (.addParam t.p)
+    let list' := s.list ++ [t]
+    let g := { s with list := list', custom := true, key := s.key ++ s!"|addparam {fmtCanon t}", tpids := none }
+    (g, { model := s!"in={fmtCanon t} list={fmtCanons (withMasks list' m'.ext.ps)}",
+          tags := ["edit", "edit:addparam"] ++ (if s.tpids.isSome then ["edit:after-inspection"] else []) ++ (if s.dials > 0 then ["edit:after-dial"] else []),
+          fails := failIf (!okDraw) "grease_draw_valid" "-" s!"in={(field impl "in=").getD "?"}" })
+  | _ => (s, { model := "bad-op" })
+
+def stepSetRand (s : St) (bS : String) : St × StepOut :=
+  if !s.hasSpec then (s, { model := "skip" }) else
+  let (m', _) := life (toModel s) (.setRand (bS == "1"))
+  ({ s with rand := m'.rand }, { model := s!"rand={if m'.rand then 1 else 0}", tags := ["edit", "edit:setrand"] })
+
+/-- the attempt (connection id, recovered shuffle draws) that explains an observed wire list, when the list after
+suppression has no two parameters the recovery could confuse; `none`: not modelled byte for byte (monitors only) -/
+def attemptOf (s : St) (scid : List Nat) (ws : List (Nat × List Nat)) : Option Attempt :=
+  if !s.rand then some { scid := scid } else
+  let l := s.list.filter fun t => specKeep s.sup t.p.id
+  -- ids whose value the wire does not repeat literally (GREASE version slots, the connection id): matched by id alone
+  let looseIDs := (l.filter fun t => t.mask.any id || t.p.id == 15).map (·.p.id)
+  let keyOf (t : TP) : Nat × List Nat := (t.p.id, if looseIDs.contains t.p.id then [] else t.p.val)
+  let wkey (w : Nat × List Nat) : Nat × List Nat := (w.1, if looseIDs.contains w.1 then [] else w.2)
+  let keys := l.map keyOf
+  if keys.eraseDups.length != keys.length then none
+  else some { scid := scid, draws := recoverDraws keys (ws.map wkey) }
+
+/-- what the model puts on the wire for the attempts of one dial (`SpecLife.life … (.dial as)`), with the byte mask
+of the GREASE-version slots -/
+def modelWires (s : St) (as : List Attempt) : List (Option (List Nat × List Bool)) :=
+  match (life (toModel s) (.dial as)).2 with
+  | .wires ws =>
+    (ws.zip as).map fun (w, a) => w.map fun (_, bytes) =>
+      let l := suppress (s.list.map (·.p)) s.sup
+      let l := if s.rand then shuffleWith a.draws l else l
+      let mask := match populate a.scid l with
+        | some (_, l') => fullMask (withMasks s.list l')
+        | none => []
+      (bytes, mask)
+  | _ => []
+
+/-- one connection attempt of a dial judged against the spec as written (ghost state from the ops only) -/
+def dialCore (s : St) (impl : String) (abandoned : Bool := false) : St × StepOut :=
   let qtpS := (field impl "qtp=").getD "?"
   let ws := ((parseHex qtpS).bind parseQTP)
   let scid := ((field impl "scid=").bind parseHex).getD []
@@ -481,7 +554,7 @@ def stepDial (s : St) (impl : String) : St × StepOut :=
       (match (parseHex ovS).bind parseQTP with
        | none => [("own_record_equals_wire", cls, s!"ClientOverride of the connection is not a parameter list: {ovS}")]
        | some os =>
-         let maskOf (pid : Nat) : List Bool := ((expect.find? fun e => e.1.p.id == pid && e.1.mask.any (fun b => b)).map (·.1.mask)).getD []
+         let maskOf (pid : Nat) : List Bool := ((s.list.find? fun t => t.p.id == pid && t.mask.any (fun b => b)).map (·.mask)).getD []
          failIf (!(os.length == ws.length && (os.zip ws).all fun (o, w) =>
                     o.1 == w.1 && (o.2 == w.2 || (eqMod o.2 w.2 (maskOf w.1) && eqMod w.2 o.2 (maskOf w.1)))))
            "own_record_equals_wire" cls s!"ClientOverride={ovS} wire={qtpS}") ++
@@ -489,6 +562,17 @@ def stepDial (s : St) (impl : String) : St × StepOut :=
        (match s.tpids with
         | some l => failIf (!isCanonSortOf l canonWire) "ids_reported_eq_wire" cls s!"TransportParameterIDs said {fmtNats l}, wire ids {fmtNats canonWire}"
         | none => []))
+  -- no identifier the suppression list names AT THE TIME OF THE DIAL is on the wire, whatever happened to the spec before
+  let listedFails := match ws with
+    | some ws =>
+      let bad := (ws.map (·.1)).filter fun i => !specKeep s.sup i
+      failIf (!bad.isEmpty) "suppressed_never_on_wire" "-"
+        s!"SuppressTransportParameters is {fmtNats s.sup}, the wire carries {fmtNats bad} (wire ids {fmtNats (ws.map (·.1))})"
+    | none => []
+  -- the dial leaves the spec value as it was written
+  let afterFails := match (field impl "after=").bind parseCanons with
+    | some l => failIf (!listsEq l s.list) "dial_leaves_spec" "-" s!"the spec's list after the dial is {fmtCanons l}, before it was {fmtCanons s.list}"
+    | none => []
   -- the connection's logged record of its own parameters against the wire
   let recS := (field impl "rec=").getD "-"
   let recFails := match ws, recS.splitOn ";" with
@@ -531,7 +615,11 @@ def stepDial (s : St) (impl : String) : St × StepOut :=
     failIf (wks.any fun w => w.2 ≤ 1) "clienthello_is_spec" "-" s!"key_share without a key: {wksS}"
   let plumbing := contents ++
     failIf (cs.map canonU16 != s.cs.map canonU16) "clienthello_is_spec" "-" s!"cipher suites {fmtNats cs}, spec {fmtNats s.cs}" ++
-    failIf (exts.map canonU16 != sexts.map canonU16) "clienthello_is_spec" "-" s!"extension order {fmtNats exts}, spec {fmtNats sexts}"
+    -- the driver reads the spec's extension types back after the whole dial; whether uTLS's padding extension (21) is
+    -- sent depends on the ClientHello length and its value is shared by all attempts, so for an abandoned first
+    -- attempt the read-back speaks of the later attempt: padding is left out of that comparison
+    (let dropPad (l : List Nat) : List Nat := if abandoned then l.filter (· != 21) else l
+     failIf ((dropPad exts).map canonU16 != (dropPad sexts).map canonU16) "clienthello_is_spec" "-" s!"extension order {fmtNats exts}, spec {fmtNats sexts}")
   -- the padding extension (21) is excluded: uTLS adds it depending on the ClientHello length, which a derived
   -- list with variable-length parameters changes from one spec build to the next
   let view := s!"{fmtNats (sortIDs ((ws.getD []).map fun w => specCanon w.1))}|{fmtNats (cs.map canonU16)}|{fmtNats (sortIDs ((exts.filter (· != 21)).map canonU16))}"
@@ -567,7 +655,62 @@ def stepDial (s : St) (impl : String) : St × StepOut :=
     (if s.tpids.isSome then ["dial:after-tpids"] else []) ++
     (if !scid.isEmpty then ["dial:scid"] else []) ++
     (if fp != "-" && !s.custom && s.sup.isEmpty && recorded s.base then ["dial:fp-checked"] else [])
-  (g, { model := impl, tags := tags, fails := wireFails ++ recFails ++ plumbing ++ stab ++ rec_ ++ kinds })
+  (g, { model := impl, tags := tags ++ (if s.sup.isEmpty then [] else ["dial:sup"]) ++ (if (field impl "ver=") == some "6b3343cf" then ["dial:v2"] else []),
+        fails := wireFails ++ listedFails ++ afterFails ++ recFails ++ plumbing ++ stab ++ rec_ ++ kinds })
+
+/-- a dial: one attempt, or — when the first flight was answered with Version Negotiation — the abandoned attempt
+(keys prefixed `1`) and the connection `UTransport.doDial` re-created from the same spec. Every attempt is judged
+on its own against the spec; the model (`SpecLife.life`) has to reproduce every attempt's extension bytes. -/
+def stepDial (s : St) (impl : String) : St × StepOut :=
+  if !s.hasSpec then (s, { model := "skip" }) else
+  if impl == "PANIC" || impl.startsWith "E:" then
+    -- derived lists are generated so that PopulateFromUQUIC accepts them: a dial has to produce a flight
+    (s, { model := "flight", tags := ["dial"], fails := [("dial_produces_flight", "-", impl)] })
+  else
+  let w := words impl
+  let w1 := (w.filter (·.startsWith "1")).map (afterPrefix · "1")
+  let wF := w.filter (!·.startsWith "1")
+  let implF := " ".intercalate wF
+  let impl1 := " ".intercalate w1
+  let impls := if w1.isEmpty then [implF] else [impl1, implF]
+  -- model: the attempts' extension bytes
+  let obs := impls.map fun i =>
+    (((field i "scid=").bind parseHex).getD [], ((field i "qtp=").bind parseHex), (((field i "qtp=").bind parseHex).bind parseQTP))
+  let atts := obs.map fun (scid, _, ws) => ws.bind (attemptOf s scid)
+  let modelled := atts.all (·.isSome)
+  let mws := if modelled then modelWires s (atts.filterMap id) else []
+  let agree := !modelled || (mws.length == obs.length && (mws.zip obs).all fun (m, o) =>
+    match m, o.2.1 with
+    | some (mb, mask), some ib => eqMod ib mb mask
+    | _, _ => false)
+  let modelText := if agree then impl else
+    let mhex (k : Nat) : String := match mws.getD k none with | some (b, _) => fmtHex b | none => "PANIC"
+    " ".intercalate (w.map fun x =>
+      if x.startsWith "qtp=" then "qtp=" ++ mhex (impls.length - 1)
+      else if x.startsWith "1qtp=" then "1qtp=" ++ mhex 0 else x)
+  if w1.isEmpty then
+    let (g, o) := dialCore s implF
+    (g, { o with model := modelText, tags := o.tags ++ (if modelled then ["dial:bytes-modelled"] else []) })
+  else
+    let (g1, o1) := dialCore s impl1 true
+    let (g2, o2) := dialCore { g1 with dials := s.dials } implF
+    let rnd1 := (field impl1 "rnd=").getD "-"
+    let rnd2 := (field implF "rnd=").getD "-"
+    let kx1 := (field impl1 "kx=").getD "-"
+    let kx2 := (field implF "kx=").getD "-"
+    let ver1 := (field impl1 "ver=").getD "?"
+    let ver2 := (field implF "ver=").getD "?"
+    let cross :=
+      failIf (rnd1 != "-" && rnd1 == rnd2) "attempt_is_fresh" "-"
+        s!"the connection re-created after Version Negotiation repeats the abandoned attempt's ClientHello.random {rnd1}" ++
+      failIf (kx1 != "-" && kx1 == kx2) "attempt_is_fresh" "-"
+        s!"the connection re-created after Version Negotiation offers the abandoned attempt's key shares again (digest of the key_share body {kx1})" ++
+      failIf (ver1 == ver2) "attempt_is_fresh" "-" s!"both attempts use QUIC version {ver1}"
+    (g2, { model := modelText,
+           tags := o1.tags ++ o2.tags ++ ["dial:version-negotiation", "dial:recreated"] ++ (if modelled then ["dial:bytes-modelled"] else []) ++
+                   (if s.tpids.isSome then ["dial:recreated-after-tpids"] else []),
+           fails := (o1.fails.map fun (n, c, d) => (n, c, "abandoned first attempt: " ++ d)) ++
+                    (o2.fails.map fun (n, c, d) => (n, c, "connection re-created after Version Negotiation: " ++ d)) ++ cross })
 
 def stepDist (name nS NS impl : String) : StepOut :=
   let n := natOf nS
@@ -599,7 +742,12 @@ def step (s : St) (op impl : String) : St × StepOut :=
   | ["spec", base, r, ids, t] => stepSpec s base r ids t "-" impl
   | ["spec", base, r, ids, t, pins] => stepSpec s base r ids t pins impl
   | ["tpids"] => stepTpids s impl
+  | ["setsup", ids] => stepSetSup s false ids impl
+  | ["addsup", ids] => stepSetSup s true ids impl
+  | ["addparam", t] => stepAddParam s t impl
+  | ["setrand", b] => stepSetRand s b
   | ["dial"] => stepDial s impl
+  | ["dialvn", _] => stepDial s impl
   | ["shufdist", n, N] => (s, stepDist "shufdist" n N impl)
   | ["dialdist", _, n, N] => (s, stepDist "dialdist" n N impl)
   | _ => (s, { model := "bad-op" })
